@@ -41,8 +41,8 @@ def model_check(work, consts, tag):
 
 QUICK = dict(Classes="ClassesCore", RowCounts="RowsQuick", NullPats="PatsQuick", ValPats="ValsQuick", Modes="ModesAll",
              RppWants="RppQuick", Versions="V12", RgOffsets="RgoQuick", StatsModes="StatsQuick")
-THOROUGH = dict(Classes="ClassesAll", RowCounts="RowsThorough", NullPats="PatsAll", ValPats="ValsAll", Modes="ModesAll",
-                RppWants="RppAll", Versions="V12", RgOffsets="RgoAll", StatsModes="StatsAll")
+THOROUGH = dict(Classes="ClassesAll", RowCounts="RowsThorough", NullPats="PatsAll", ValPats="ValsQuick", Modes="ModesAll",
+                RppWants="RppQuick", Versions="V12", RgOffsets="RgoThorough", StatsModes="StatsAll")
 
 
 def case_sig(case):
@@ -129,8 +129,9 @@ def replay_chunk(args):
                 pf = None
             # ------------------------------------------------ C02
             fv = PR.read_file(data, strict=True)
-            probs = [p for p in fv.problems if KNOWN_THRIFT not in p]
-            known_thrift = len(fv.problems) - len(probs)
+            # statistics are C04's business (and an in-band NaT/NaN in a REQUIRED column is a "value" only to pqspec)
+            probs = [p for p in fv.problems if KNOWN_THRIFT not in p and not p.startswith("E-STATS")]
+            known_thrift = len([p for p in fv.problems if KNOWN_THRIFT in p])
             if known_thrift:
                 out["viol"].append(("C02", {"what": "empty list serialised with element type 0 (not the IDL's type)",
                                             "code": "E-THRIFT-EMPTYLIST"}, ci))
@@ -213,15 +214,18 @@ def replay_chunk(args):
                 if pf is not None and case["rgs"]:
                     try:
                         S = pf.statistics
-                        for gi, g in enumerate(case["rgs"]):
+                        nrg = len(case["rgs"])
+                        # a list that is not one entry per row group ([None] collapse) exposes nothing: accepted
+                        exposed = all(len(S[k]["x"]) == nrg for k in ("min", "max", "null_count"))
+                        for gi, g in enumerate(case["rgs"] if exposed else []):
                             chunk_cells = [c for c in cells[g["start"]:g["start"] + g["len"]] if c >= 0]
                             umin, umax = S["min"]["x"][gi], S["max"]["x"][gi]
                             unull = S["null_count"]["x"][gi]
                             ch = [c for c in fv.row_groups[gi].chunks if c.path == ("x",)][0]
                             st = ch.meta.get("statistics") or {}
                             has_raw = (st.get("min_value") is not None) or (st.get("min") is not None)
-                            if has_raw and chunk_cells:
-                                if not (CZ.cell_equal(cls, umin, min(chunk_cells)) and CZ.cell_equal(cls, umax, max(chunk_cells))):
+                            if has_raw and chunk_cells and umin is not None and umax is not None:
+                                if not (CZ.stat_equal(cls, umin, min(chunk_cells)) and CZ.stat_equal(cls, umax, max(chunk_cells))):
                                     out["viol"].append(("C04", dict(sig, what="ParquetFile.statistics min/max decode to "
                                                                     "different logical values"), ci))
                                     break
@@ -265,3 +269,85 @@ def run_cases(cases, work, chunk=120):
     res = pmap(replay_chunk, jobs, job_timeout=900)
     shutil.rmtree(base, ignore_errors=True)
     return jobs, res
+
+
+# ---------------------------------------------------------------------------------------------------------------
+# C02 beyond one column: codecs x file schemes, every file of a multi-file dataset incl. the summary files
+# ---------------------------------------------------------------------------------------------------------------
+
+def sweep_job(args):
+    jid, codec, scheme, v, base = args
+    fp = use_repo()
+    import pandas as pd
+    import numpy as np
+    import fastparquet.writer as W
+    out = {"jid": jid, "viol": [], "evals": 0, "files": 0}
+    d = os.path.join(base, "s%d" % jid)
+    os.makedirs(d)
+    try:
+        n = 12
+        df = pd.DataFrame({
+            "i": np.arange(n, dtype="int64") * 1000003 - 5, "f": [np.nan if i % 5 == 0 else i * 0.25 - 1 for i in range(n)],
+            "s": pd.Series([None if i % 4 == 1 else "t%03dé" % (i * 3) for i in range(n)], dtype=object),
+            "b": [bool(i % 3) for i in range(n)], "t": pd.date_range("2021-03-01", periods=n, freq="h"),
+            "k": pd.Categorical(["u", "v", "w"] * 4), "p": [i % 2 for i in range(n)]})
+        path = os.path.join(d, "out")
+        comp = codec if not isinstance(codec, tuple) else {"i": codec[0], "s": codec[1], "_default": None}
+        old_v = W.DATAPAGE_VERSION
+        try:
+            W.DATAPAGE_VERSION = v
+            fp.write(path, df, file_scheme=scheme, compression=comp, row_group_offsets=[0, 5, 9],
+                     partition_on=(["p"] if scheme != "simple" else []), write_index=False)
+        finally:
+            W.DATAPAGE_VERSION = old_v
+        out["evals"] = 1
+        files = {}
+        if scheme == "simple":
+            files[os.path.basename(path)] = open(path, "rb").read()
+        else:
+            for root, _, fns in os.walk(path):
+                for fn in fns:
+                    rel = os.path.relpath(os.path.join(root, fn), path)
+                    files[rel] = open(os.path.join(root, fn), "rb").read()
+        sig0 = {"codec": str(codec), "scheme": scheme, "v": v}
+        total = 0
+        for rel, data in sorted(files.items()):
+            out["files"] += 1
+            fv = PR.read_file(data, strict=True, other_files=files)
+            kind = "summary" if rel.endswith("metadata") else "data"
+            for p in fv.problems:
+                if KNOWN_THRIFT in p:
+                    out["viol"].append(("C02", {"what": "empty list serialised with element type 0 (not the IDL's type)",
+                                                "code": "E-THRIFT-EMPTYLIST"}, rel))
+                    continue
+                if p.startswith("E-STATS"):
+                    continue
+                out["viol"].append(("C02", dict(sig0, what="structural problem reported by the independent reader",
+                                                code=p.split()[0], file=("_common_metadata" if rel == "_common_metadata" else kind)), rel))
+            if kind == "data" and not [p for p in fv.problems if KNOWN_THRIFT not in p and not p.startswith("E-STATS")]:
+                xs = fv.column("i")
+                total += len(xs)
+                ss = fv.column("s")
+                for x, sv in zip(xs, ss):
+                    i = (x + 5) // 1000003
+                    want = None if i % 4 == 1 else ("t%03dé" % (i * 3)).encode("utf8")
+                    if sv != want:
+                        out["viol"].append(("C02", dict(sig0, what="independent reader decodes a different value"), rel))
+                        break
+        if total != n:
+            out["viol"].append(("C02", dict(sig0, what="rows found by the independent reader in the data files differ "
+                                                      "from the rows written"), "all"))
+    except BaseException:  # noqa
+        out["error"] = traceback.format_exc()
+    finally:
+        shutil.rmtree(d, ignore_errors=True)
+    return out
+
+
+def run_sweep(work):
+    base = os.path.join(work, "sweep")
+    os.makedirs(base)
+    codecs = [None, "SNAPPY", "GZIP", "ZSTD", "LZ4", "BROTLI", ("GZIP", "SNAPPY")]
+    jobs = [(i, c, s, v, base) for i, (c, s, v) in
+            enumerate((c, s, v) for c in codecs for s in ("simple", "hive", "drill") for v in (1, 2))]
+    return jobs, pmap(sweep_job, jobs, job_timeout=300)
